@@ -100,6 +100,26 @@ fn must_be_inert(fp: &str, bytes: &[u8]) -> bool {
     true
 }
 
+/// 0.7: the own token (handed to the peer in `Token` / `Connect` packets) is never `TOKEN_NONE`
+fn reserved_own_token(fp: &str, _connector: bool) -> Option<String> {
+    let t = fp_tok_after(fp, "own_token: ")?;
+    if t == [0xff; 4] {
+        Some(tok_str(&t))
+    } else {
+        None
+    }
+}
+
+fn reserved_wire_token(text: &str, _connector: bool) -> Option<String> {
+    if text.ends_with(":tk.ffffffff") || text.ends_with(":co.ffffffff") {
+        Some("ffffffff".to_string())
+    } else {
+        None
+    }
+}
+
+const RESERVED_DRAWS: &[&str] = &["ffffffff,0a0b0c0d", "ffffffff,ffffffff,0a0b0c0d", "ffffffff,00000000"];
+
 fn new_accept(_cb: &mut Cb, _t: [u8; 4]) -> Option<cx::Connection> {
     None
 }
